@@ -591,6 +591,27 @@ impl<R: Raw> AnyPlanner<R> {
             PlannerKind::PRM => AnyPlanner::Prm(PRM::new(p.prm_timeout_s, p.connection_radius, &cfg)),
         }
     }
+    fn set_params(&mut self, max_distance: f64, goal_bias: f64, search_radius: f64, connection_radius: f64, prm_timeout_s: f64) {
+        match self {
+            AnyPlanner::Rrt(p) => {
+                p.max_distance = max_distance;
+                p.goal_bias = goal_bias;
+            }
+            AnyPlanner::Connect(p) => {
+                p.max_distance = max_distance;
+                p.goal_bias = goal_bias;
+            }
+            AnyPlanner::Star(p) => {
+                p.max_distance = max_distance;
+                p.goal_bias = goal_bias;
+                p.search_radius = search_radius;
+            }
+            AnyPlanner::Prm(p) => {
+                p.timeout = prm_timeout_s;
+                p.connection_radius = connection_radius;
+            }
+        }
+    }
     fn setup(&mut self, pd: Arc<Pd<R>>, vc: Arc<dyn StateValidityChecker<S<R>>>) {
         match self {
             AnyPlanner::Rrt(p) => p.setup(pd, vc),
@@ -904,7 +925,7 @@ fn run_typed<R: Raw>(scn: &Scenario, opts: &RunOpts) -> Outcome {
             c.limit_ns = match call {
                 CallSpec::Solve { timeout_ns, .. } => Some(*timeout_ns),
                 CallSpec::Construct { .. } => {
-                    let t = scn.planner.prm_timeout_s * 1e9;
+                    let t = scn.planner_at(ci).prm_timeout_s * 1e9;
                     if t >= 0.0 && t < 1e18 { Some(t.ceil() as u64) } else { None }
                 }
                 _ => None,
@@ -920,6 +941,10 @@ fn run_typed<R: Raw>(scn: &Scenario, opts: &RunOpts) -> Outcome {
         let res: Res = match call {
             CallSpec::New => {
                 planner = AnyPlanner::new(&scn.planner);
+                Res::Unit
+            }
+            CallSpec::SetParams { max_distance, goal_bias, search_radius, connection_radius, prm_timeout_s } => {
+                planner.set_params(*max_distance, *goal_bias, *search_radius, *connection_radius, *prm_timeout_s);
                 Res::Unit
             }
             CallSpec::Setup { problem } => {
